@@ -41,6 +41,10 @@ def handle : List String → Option String
         acc + sg * V3.dot (areaVec2 ps) (vsum ps) / (f.length : Rat)) 0
       s!"{showV3 s} {showRat (d / 6)} {showRat (elemVol24 (4 : Rat) 0 pt c / 24)} {showV3 (vsum cp)}"
     some ("ok " ++ showList id perFacet ++ " " ++ showList id perCell)
+  | "c12.meanplane" :: rest => do
+    let m ← run meshP rest
+    let cells := flatten m.elemBlocks
+    some ("ok " ++ showList showBool (cells.map (meanPlaneB (ptOf m))))
   | _ => none
 
 end Femio.C12
